@@ -1,5 +1,6 @@
 import JediModel.Proto
 import JediModel.Model.DiskCache
+import JediModel.Model.NsPath
 import JediModel.Gen.C09
 open Lean Proto JediModel.DiskCache
 
@@ -52,8 +53,42 @@ def stepJson (st : St) (j : Json) : St × Json :=
                 ("fresh", jopt jstr ((stubNow P st.fs q).map (·.1)))])
   | t => (st, jobj [("error", jstr ("unknown step " ++ t))])
 
+/-! `{"op":"nshistory","filter":true|false (absent: as read from the source),"steps":[{"t":"mkdir","d":..},
+{"t":"rmdir","d":..},{"t":"addMod","d":..,"m":..},{"t":"delMod","d":..,"m":..},{"t":"newProcess"},
+{"t":"query","entries":[[s, s/name],..],"m":..}]}`: Model/NsPath; a query answers the candidate directories
+(`py__path__`), where the long-lived process finds the module, where a fresh process does, and the negative
+entries of the finder cache afterwards. -/
+def nsStep (c : JediModel.NsPath.Cfg) (st : JediModel.NsPath.State) (j : Json) : JediModel.NsPath.State × Json :=
+  open JediModel.NsPath in
+  match str j "t" with
+  | "mkdir" => (step c st (.mkdir (str j "d")), jobj [])
+  | "rmdir" => (step c st (.rmdir (str j "d")), jobj [])
+  | "addMod" => (step c st (.addMod (str j "d") (str j "m")), jobj [])
+  | "delMod" => (step c st (.delMod (str j "d") (str j "m")), jobj [])
+  | "newProcess" => (step c st .newProcess, jobj [])
+  | "query" =>
+    let es : List (String × String) := (arr j "entries").map fun e =>
+      match asArr e with
+      | [a, b] => (asStr a, asStr b)
+      | _ => ("", "")
+    let q : Query := { entries := es, m := str j "m" }
+    let r := resolve c st.fs st.fd q
+    ({ st with fd := r.2 },
+     jobj [("cands", jarr (r.1.1.map jstr)), ("found", jopt jstr r.1.2),
+           ("fresh", jopt jstr (fresh c st q)), ("neg", jarr (r.2.neg.map jstr))])
+  | t => (st, jobj [("error", jstr ("unknown step " ++ t))])
+
 def handle (j : Json) : Json :=
   match str j "op" with
+  | "nshistory" =>
+    let c : JediModel.NsPath.Cfg :=
+      match j.getObjVal? "filter" with
+      | .ok (Json.bool b) => { filterIsdir := b }
+      | _ => JediModel.Gen.C09.nsCfg
+    let (_, out) := (arr j "steps").foldl (fun (acc : JediModel.NsPath.State × List Json) s =>
+      let (st', r) := nsStep c acc.1 s
+      (st', r :: acc.2)) (({} : JediModel.NsPath.State), [])
+    jarr out.reverse
   | "history" =>
     let (_, out) := (arr j "steps").foldl (fun (acc : St × List Json) s =>
       let (st', r) := stepJson acc.1 s
